@@ -49,6 +49,9 @@ CHECKS = {
     "C17": ("Hypothesis-generated image pairs / shapes / shell widths vs a float64 per-shell reference; symmetry and rescaling metamorphic relations; loader-level tables recomputed from the returned half-maps and masks",
             "Generated-input exploration with a reference-model oracle per shell, metamorphic relations (symmetry, positive rescaling, self-correlation = 1) and a differential oracle at loader level (table == reference applied to the returned half-maps x mask; half-maps == average_split - mean; reproducibility; column names).",
             "shells below the single-precision noise floor and shells touched by exact boundary ties are skipped and counted", "4/C17"),
+    "C10": ("differential testing across dask schedulers (synchronous / threads 1-16 / harness-owned completion orders drawn by Hypothesis) and chunkings; cooperative thread scheduler with schedule points at the shared template cache driven by drawn schedules, all 2-thread schedules of length 8 enumerated; lazy vs computed shapes; preemption stress in the thorough tier",
+            "Exploration of harness-owned schedules: generated computations must give identical results under every scheduler / chunking, every drawn interleaving of threads sharing one model must reproduce the sequential results without error, and lazy arrays must report their computed shape. The 2-thread, length-8 schedule space over score is enumerated completely.",
+            "interleavings inside numpy/scipy/polars C code and free-threaded interpreters are not owned by the harness (only sampled by the stress engine); schedule points are the accesses to TemplateMaskCache._dict", "4/C10"),
 }
 
 NOT_YET = {}
